@@ -1,1 +1,158 @@
-import Depccg.Tree
+/-
+  C19  Whatever the parser can return can be rendered in every offered format.
+  Property theorems only; the statements are in Depccg/Props/C19Defs.lean, helper lemmas in
+  Depccg/Proofs/C19Lemmas.lean.
+-/
+import Depccg.Props.C19Defs
+import Depccg.Proofs.C19Lemmas
+import Depccg.Generated.Labels
+
+namespace Depccg.C19
+open Depccg Str Print TextProps
+
+/-- the line / document formats never fail on trees whose tokens have a word -/
+theorem text_render_total : TextRenderTotalStatement := fun t h =>
+  ⟨autoOf_total t h, autoExtOf_total t h, conllOf_total t h, ptbOf_total t h, jaOf_total t h, derivOf_total t h⟩
+
+/-- Jigg XML never fails on non-empty n-best lists -/
+theorem jigg_render_total : JiggRenderTotalStatement := fun useSymbol batch h =>
+  jiggOfAux_total useSymbol batch 0 h
+
+/-- the English Prolog printer never fails on trees with known labels -/
+theorem prolog_en_total : PrologEnTotalStatement := by
+  intro batch h
+  have hall : ∀ p ∈ numbered batch, ∃ s,
+      (fun (p : Nat × Tree) => (prologEnOne p.2 p.1).map (· ++ [10])) p = .ok s := by
+    intro p hp
+    obtain ⟨trees, htb, hpt⟩ := mem_numbered hp
+    obtain ⟨hw, ho⟩ := h trees htb p.2 hpt
+    obtain ⟨s, hs⟩ := prologEnRec_total p.2 hw ho 1
+    have h1 : prologEnOne p.2 p.1 = .ok (lit "ccg(" ++ Str.ofNat p.1 ++ lit ",\n" ++ s ++ lit ").\n") := by
+      simp only [prologEnOne, hs]
+    exact ⟨_, map_ok _ h1⟩
+  obtain ⟨body, hb⟩ := catExcept_total _ _ hall
+  simp only [prologEn, hb]
+  exact ⟨_, rfl⟩
+
+/-- the Japanese Prolog printer never fails on trees with known symbols -/
+theorem prolog_ja_total : PrologJaTotalStatement := by
+  intro batch h
+  have hall : ∀ p ∈ numbered batch, ∃ s,
+      (fun (p : Nat × Tree) =>
+        (prologJaRec p.2 1).map fun s => lit "ccg(" ++ Str.ofNat p.1 ++ lit "," ++ s ++ lit ").\n\n") p = .ok s := by
+    intro p hp
+    obtain ⟨trees, htb, hpt⟩ := mem_numbered hp
+    obtain ⟨hw, ho⟩ := h trees htb p.2 hpt
+    obtain ⟨s, hs⟩ := prologJaRec_total p.2 hw ho 1
+    exact ⟨_, map_ok _ hs⟩
+  obtain ⟨body, hb⟩ := catExcept_total _ _ hall
+  simp only [prologJa, hb]
+  exact ⟨_, rfl⟩
+
+/-- a batch renders as soon as each of its trees does -/
+theorem batch_total : BatchTotalStatement := by
+  intro fmt conll batch h
+  apply catExcept_total
+  intro p hp
+  obtain ⟨trees, htb, hpt⟩ := mem_numbered hp
+  obtain ⟨s, hs⟩ := h trees htb p.2 hpt
+  exact ⟨_, map_ok _ hs⟩
+
+/-- the failure placeholder satisfies the hypotheses of every theorem above -/
+theorem placeholder_renders : PlaceholderRendersStatement := ⟨⟨_, rfl⟩, trivial, trivial⟩
+
+/-- the labels of English binary results are known to the English Prolog printer -/
+theorem en_labels_ok : EnLabelsOKStatement := by
+  unfold EnLabelsOKStatement; decide
+
+/-- the symbols of Japanese results are known to the Japanese Prolog printer -/
+theorem ja_symbols_ok : JaSymbolsOKStatement := by
+  unfold JaSymbolsOKStatement; decide
+
+/-! ### the placeholder, rendered -/
+
+section examples
+
+example : autoOf placeholder = .ok (lit "(<L NP POS POS FAILED NP>)") := by decide
+example : autoExtOf placeholder = .ok (lit "(<L NP FAILED XX XX XX XX NP>)") := by decide
+example : conllOf placeholder = .ok (lit "1\tFAILED\t_\t_\t_\t_\t0\tNP\t_\t(<L NP _ _ FAILED NP>)") := by
+  decide +kernel
+example : ptbOf placeholder = .ok (lit "(ROOT (NP FAILED))") := by decide
+example : jaOf placeholder = .ok (lit "{NP FAILED/FAILED/_/_}") := by decide
+example : derivOf placeholder = .ok (lit "   NP\n FAILED\n") := by decide +kernel
+
+example : prologEn [[placeholder]] = .ok (lit
+    (":- op(601, xfx, (/)).\n:- op(601, xfx, (\\)).\n:- multifile ccg/2, id/2.\n:- discontiguous ccg/2, id/2.\n\n" ++
+     "ccg(1,\n t(np, 'FAILED', 'XX', 'XX', 'XX', 'XX')).\n\n")) := by decide +kernel
+
+example : prologJa [[placeholder]] = .ok (lit
+    (":- op(601, xfx, (/)).\n:- op(601, xfx, (\\)).\n:- multifile ccg/2, id/2.\n:- discontiguous ccg/2, id/2.\n\n" ++
+     "ccg(1,\n t(np, 'FAILED', '*', '*', '*', '*')).\n\n")) := by decide +kernel
+
+/-- … and by the theorems -/
+example : ∃ s, derivOf placeholder = .ok s := (text_render_total placeholder placeholder_renders.1).2.2.2.2.2
+example : ∃ ss, Xml.jiggOf true [[placeholder]] = .ok ss :=
+  jigg_render_total true [[placeholder]] (by decide)
+
+private def cNP : Cat := .atom (lit "NP") (.un none)
+private def cS : Cat := .atom (lit "S") (.un (some (lit "dcl")))
+private def cVP : Cat := .fn cS cBSlash cNP
+
+/-- what the parser builds from `NP` "it" and `S[dcl]\NP` "runs": the English grammar's result -/
+private def exTree : Tree :=
+  .bin cS (lit "ba") (lit "<") true
+    (.leaf cNP (Token.ofWord (lit "it")) (lit "lex") (lit "<lex>"))
+    (.leaf cVP (Token.ofWord (lit "runs")) (lit "lex") (lit "<lex>"))
+
+example : En.applyBinary none cNP cVP = .ok [⟨cS, lit "ba", lit "<", true⟩] := by decide +kernel
+
+private theorem exOK : AllToks HasWord exTree ∧ EnPrologOK exTree :=
+  ⟨⟨⟨_, rfl⟩, ⟨_, rfl⟩⟩, by decide, by decide, trivial, trivial⟩
+
+/-- a batch of one parsed sentence and one failed sentence: one Prolog document, by the theorem … -/
+example : ∃ s, prologEn [[exTree], [placeholder]] = .ok s := by
+  apply prolog_en_total
+  intro trees ht t htt
+  simp only [List.mem_cons, List.not_mem_nil, or_false] at ht
+  rcases ht with rfl | rfl
+  · simp only [List.mem_cons, List.not_mem_nil, or_false] at htt; subst htt; exact exOK
+  · simp only [List.mem_cons, List.not_mem_nil, or_false] at htt; subst htt
+    exact ⟨placeholder_renders.1, placeholder_renders.2.1⟩
+
+/-- … and evaluated -/
+example : prologEn [[exTree], [placeholder]] = .ok (lit
+    (":- op(601, xfx, (/)).\n:- op(601, xfx, (\\)).\n:- multifile ccg/2, id/2.\n:- discontiguous ccg/2, id/2.\n\n" ++
+     "ccg(1,\n ba(s:dcl,\n  t(np, 'it', 'XX', 'XX', 'XX', 'XX'),\n  t((s:dcl\\np), 'runs', 'XX', 'XX', 'XX', 'XX'))).\n\n" ++
+     "ccg(2,\n t(np, 'FAILED', 'XX', 'XX', 'XX', 'XX')).\n\n")) := by decide +kernel
+
+/-- the record-by-record formats on the same batch, by the theorem and evaluated -/
+example : ∃ s, toStringLines autoOf false [[(exTree, lit "-0.5")], [(placeholder, lit "0.0")]] = .ok s := by
+  apply batch_total
+  intro trees ht p hp
+  simp only [List.mem_cons, List.not_mem_nil, or_false] at ht
+  rcases ht with rfl | rfl <;>
+    (simp only [List.mem_cons, List.not_mem_nil, or_false] at hp; subst hp)
+  · exact (text_render_total exTree exOK.1).1
+  · exact (text_render_total placeholder placeholder_renders.1).1
+
+example : toStringLines autoOf false [[(exTree, lit "-0.5")], [(placeholder, lit "0.0")]] = .ok (lit
+    ("ID=1, log probability=-0.5\n(<T S[dcl] 0 2> (<L NP XX XX it NP>) (<L S[dcl]\\NP XX XX runs S[dcl]\\NP>) )\n" ++
+     "ID=2, log probability=0.0\n(<L NP POS POS FAILED NP>)\n")) := by decide +kernel
+
+/-! the hypotheses are needed -/
+
+/-- a token without a word fails in every line format -/
+example : autoOf (.leaf cNP [] (lit "lex") (lit "<lex>")) = .error .keyError := by decide
+
+/-- Jigg XML fails on an empty n-best list -/
+example : Xml.jiggOf false [[]] = .error .indexError := rfl
+
+/-- an unknown label fails in the English Prolog printer, and `conj` needs a functor category -/
+example : prologEnRec (.bin cNP (lit "unk") (lit "<unk>") true placeholder placeholder) 1 = .error .keyError := by
+  decide +kernel
+example : prologEnRec (.bin cNP (lit "conj") (lit "<Φ>") true placeholder placeholder) 1 = .error .attributeError := by
+  decide +kernel
+
+end examples
+
+end Depccg.C19
